@@ -27,13 +27,37 @@ theorem inBox_inShape_of_within : ∀ (shape off cnt idx : Idx), boxWithin shape
   | _ :: _, [], _, _, hw, _ => by simp [boxWithin] at hw
   | _ :: _, _ :: _, [], _, hw, _ => by simp [boxWithin] at hw
 
+/-- a box inside an extent has the rank of the extent -/
+theorem boxWithin_lengths : ∀ (shape off cnt : Idx), boxWithin shape off cnt = true → off.length = shape.length ∧ cnt.length = shape.length
+  | [], [], [], _ => ⟨rfl, rfl⟩
+  | n :: ns, o :: os, c :: cs, h => by
+    simp only [boxWithin, Bool.and_eq_true, decide_eq_true_eq] at h
+    have := boxWithin_lengths ns os cs h.2
+    simp [this.1, this.2]
+  | [], _ :: _, _, h => by simp [boxWithin] at h
+  | [], [], _ :: _, h => by simp [boxWithin] at h
+  | _ :: _, [], _, h => by simp [boxWithin] at h
+  | _ :: _, _ :: _, [], h => by simp [boxWithin] at h
+
 /-- the hyperslab a well-formed request (non-empty count and offset inside the extent) addresses -/
 theorem resolve_of_boxOk (a : NDArray V) (cnt off : Idx) (hc : cnt ≠ []) (ho : off ≠ []) (hb : a.boxOk off cnt = true) :
     a.resolve cnt off = .ok (off, cnt) := by
   unfold NDArray.resolve
   have h1 : off.isEmpty = false := by cases off <;> simp_all
   have h2 : cnt.isEmpty = false := by cases cnt <;> simp_all
-  simp [h1, h2, hb]
+  obtain ⟨hl1, hl2⟩ := boxWithin_lengths a.shape off cnt hb
+  have t1 : List.take a.shape.length cnt = cnt := by rw [← hl2]; exact List.take_length
+  have t2 : List.take a.shape.length off = off := by rw [← hl1]; exact List.take_length
+  simp [h1, h2, hl1, hl2, t1, t2, hb]
+
+/-- a request of the wrong rank is never served as the box (off, cnt) of the same rank: too few entries are refused outright
+    (`InvalidRank`, fix de0d7a0) -/
+theorem resolve_short_refused (a : NDArray V) (cnt off : Idx) (hc : cnt ≠ []) (ho : off ≠ [])
+    (hs : cnt.length < a.shape.length ∨ off.length < a.shape.length) : a.resolve cnt off = .error .invalidRank := by
+  unfold NDArray.resolve
+  have h1 : off.isEmpty = false := by cases off <;> simp_all
+  have h2 : cnt.isEmpty = false := by cases cnt <;> simp_all
+  simp [h1, h2, hs]
 
 /-! ### single operations -/
 
@@ -64,11 +88,14 @@ theorem write_shape (a a' : NDArray V) (cnt off : Idx) (vals : List V) (h : a.wr
 
 /-- a write that would leave the extent is refused and transfers nothing -/
 theorem write_outside_rejected (a : NDArray V) (cnt off : Idx) (vals : List V) (hc : cnt ≠ []) (ho : off ≠ [])
+    (hcl : cnt.length = a.shape.length) (hol : off.length = a.shape.length)
     (hb : a.boxOk off cnt = false) : a.write cnt off vals = .error .h5Error := by
   unfold NDArray.write NDArray.resolve
   have h1 : off.isEmpty = false := by cases off <;> simp_all
   have h2 : cnt.isEmpty = false := by cases cnt <;> simp_all
-  simp [h1, h2, hb]
+  have t1 : List.take a.shape.length cnt = cnt := by rw [← hcl]; exact List.take_length
+  have t2 : List.take a.shape.length off = off := by rw [← hol]; exact List.take_length
+  simp [h1, h2, hcl, hol, t1, t2, hb]
 
 /-- **setExtent**: surviving elements keep their value, newly exposed ones read as zero -/
 theorem get_setExtent (a a' : NDArray V) (shape : Idx) (h : a.setExtent shape = .ok a') (idx : Idx) :
@@ -143,7 +170,6 @@ theorem step_lastValue (a : NDArray V) (past : List (HOp V)) (op : HOp V) (hn : 
     simp only [applyOp, lastValue]
     cases hw : a.write cnt off vals with
     | error e =>
-      have := write_outside_rejected a cnt off vals hc ho
       cases hbb : a.boxOk off cnt with
       | true =>
         unfold NDArray.write at hw
